@@ -185,6 +185,17 @@ def extract(tree):
     if not re.search(r"janet_fiber_set_status\(fiber, JANET_STATUS_ALIVE\);\s*sig = run_vm\(fiber, in\);", cnc) or \
        not re.search(r"janet_fiber_set_status\(fiber, sig\);\s*janet_restore\(&tstate\);\s*fiber->last_value = tstate\.payload;", cnc):
         raise ExtractError("janet_continue_no_check: status transitions shape changed")
+    m = re.search(r"if \(old_status == JANET_STATUS_NEW && !janet_checktype\(in, JANET_NIL\)\) \{\s*Janet \*stack = fiber->data \+ fiber->frame;\s*"
+                  r"JanetFunction \*func = janet_stack_frame\(stack\)->func;\s*if \(func\) \{\s*if \(func->def->(arity|min_arity) > 0\) \{\s*stack\[0\] = in;\s*\}\s*"
+                  r"else if \(func->def->flags & JANET_FUNCDEF_FLAG_VARARG\) \{\s*stack\[0\] = janet_wrap_tuple\(janet_tuple_n\(&in, 1\)\);", cnc)
+    if not m:
+        raise ExtractError("janet_continue_no_check: binding of the first resume value shape changed")
+    first_uses_arity = m.group(1) == "arity"
+    mm = re.search(r"if \(func->def->min_arity > (\d+)\) \{\s*janet_panicf\(\"fiber function must accept 0 or 1 arguments\"\);\s*\}\s*"
+                   r"fiber = janet_fiber\(func, 64, func->def->min_arity, NULL\);", fc)
+    if not mm:
+        raise ExtractError("cfun_fiber_new: arity check shape changed")
+    new_max_min_arity = int(mm.group(1))
     cs = csrc.func_body(vm, "janet_continue_signal")
     tail = r".*child->gc\.flags \|= sig << JANET_FIBER_STATUS_OFFSET;\s*child->flags \|= JANET_FIBER_RESUME_SIGNAL;"
     if re.search(r"JanetFiber \*child = fiber;\s*while \(child->child\) child = child->child;" + tail, cs, re.S):
@@ -234,7 +245,7 @@ def extract(tree):
     user_max, user_base = int(m.group(1)), sig[m.group(2)]
     return dict(sig=sig, stat=stat, signames=signames, statnames=statnames, env=env, usern=usern, default_mask=default_mask,
                 letters=letters, envmodes=envmodes, refuse=refuse, cancel_sig=cancel_sig, prop_max=prop_max, next_nil=next_nil,
-                next_skip=next_skip, user_max=user_max, user_base=user_base, walk_guarded=walk_guarded, stale_cleared=stale_cleared, chain_alive=chain_alive, prop_refuses_dead=prop_refuses_dead)
+                next_skip=next_skip, user_max=user_max, user_base=user_base, walk_guarded=walk_guarded, stale_cleared=stale_cleared, chain_alive=chain_alive, prop_refuses_dead=prop_refuses_dead, first_uses_arity=first_uses_arity, new_max_min_arity=new_max_min_arity)
 
 
 def render(tree):
@@ -284,5 +295,9 @@ def render(tree):
     o.append("abbrev chainAliveMarked : Bool := %s" % ("true" if x["chain_alive"] else "false"))
     o.append("/-- JOP_PROPAGATE refuses a dead fiber (its status would be signal ok = a return out of the current frame) -/")
     o.append("abbrev propagateRefusesDead : Bool := %s" % ("true" if x["prop_refuses_dead"] else "false"))
+    o.append("/-- a new fiber's first non-nil resume value goes to parameter slot 0 when `arity > 0` (true) resp. `min_arity > 0` (false) -/")
+    o.append("abbrev firstValueUsesArity : Bool := %s" % ("true" if x["first_uses_arity"] else "false"))
+    o.append("/-- fiber/new refuses functions with more required parameters than this -/")
+    o.append("abbrev newMaxMinArity : Nat := %d" % x["new_max_min_arity"])
     o.append("\nend JanetModel.Gen.Fiber\n")
     return "\n".join(o)
